@@ -302,3 +302,10 @@ func ZZ_C11_bind_refreshes_last_seen() {
 	}
 	zz.Assert(bound == 1, "the record is moved to bound exactly once")
 }
+
+// C10 (an interface is never pulled from a live pod), leak collector: an
+// interface referenced by any allocation of any record - also when an earlier
+// allocation of the same record is not a candidate - is never detached or
+// deleted.  Same exploration as ZZ_C11_gc_leaked_enis.
+// zz:noreplay time.Parse is replaced by a symbolic clock through an engine-side override
+func ZZ_C10_leak_gc_spares_referenced() { ZZ_C11_gc_leaked_enis() }
